@@ -175,6 +175,7 @@ def truthy : PV → Bool
   | bool b => b
   | flt x => x != some 0
   | uns _ n => n != 0
+  | arr .big xs => !xs.isEmpty          -- a Python list (NumPy arrays have no truth value here)
   | str s => s != ""
   | dtype _ => true
   | obj _ _ _ _ => true
